@@ -20,6 +20,9 @@ def obligations(tier):
         for op in range(15):
             obs.append(dict(name=f"step[case{case},op{op}]", func="step", pre=f"case == {case} and op == {op}", timeout=T,
                             bounds="presence bits x 4 rotations x reversal x values <=1 char"))
+    for case in range(7):
+        obs.append(dict(name=f"eq_content[case{case}]", func="eq_content", pre=f"case == {case}", timeout=T,
+                        bounds="two objects with one key set whose values line up by position but sit under other keys (3 rotations), values <=1 symbolic, with/without charts: unequal unless the mappings coincide"))
     for ci in range(4):
         obs.append(dict(name=f"all_props[{['SMSimfile','SSCSimfile','SSCChart','SMChart'][ci]}]", func="all_props", pre=f"ci == {ci}", timeout=T,
                         bounds="every known-property attribute of the class (found by introspection, symbolic index): attribute <-> upper-case key, other keys untouched"))
